@@ -325,3 +325,27 @@ def f22_annotated_literal_index(case, bucket, detail):
         if nd[0] == "suffix" and lit_under_wrapper(nd[2]):
             return True
     return False
+
+
+# --------------------------------------------------------------------------- F10 (out-of-range array index returns data)
+
+
+@predicate("f10_oob_unchecked_element_kinds")
+def f10_oob_unchecked_element_kinds(case, bucket, detail):
+    """F10: indexing past the end is only caught when the computed byte range leaves the encoding. Not caught for
+    (a) bool elements while the bit index stays inside the last packed byte, (b) elements of dynamic type (the head
+    slot read lands in the tail area), (c) elements whose static encoding is 0 bytes long."""
+    if bucket != "oob-returned-data" or not isinstance(case, dict) or not case.get("oob"):
+        return False
+    from .abi import shapes as S
+
+    o = case["oob"]
+    elem, n, idx = o["elem"], o["length"], o["index"]
+    if elem[0] == "bool":
+        return idx < 8 * ((n + 7) // 8)
+    if S.is_dynamic(elem):
+        return True
+    try:
+        return S.sdk_type(elem).byte_len() == 0
+    except Exception:
+        return False
